@@ -46,7 +46,6 @@ ASSUMPTIONS = [
 HYBRID, INTERLEAVED, NEIGHBOURING, SINGLE = "chemical_hybrid", "interleaved", "neighbouring", "single"
 STRENGTH = {HYBRID: 3, INTERLEAVED: 2, NEIGHBOURING: 1, SINGLE: 0}
 
-FIX_LOOKUP = "single_lookup_minmax"    # singles: parent looked up by (lowest, highest) coordinate, not (start, end)
 
 
 # --------------------------------------------------------------------------- helpers on specs
@@ -261,8 +260,6 @@ class Reference:
                 continue
             result.add(entry)
         self.result = result
-        if any(len(proto["loc"]["parts"]) > 1 for proto in protos):
-            self.input_classes.add(FIX_LOOKUP)
 
 
 # --------------------------------------------------------------------------- building and observing
@@ -418,29 +415,6 @@ def _judge(spec: dict, got: list, model: Reference) -> list:
     return failures
 
 
-def _repair_lookup(spec: dict, got: list, model: Reference) -> tuple:
-    """ the outcome had the parent of a single been looked up by (start, end) instead of (lowest, highest
-        coordinate); only origin-spanning protoclusters are affected.  -> (outcome, number of changes) """
-    length = spec["L"]
-    result = list(got)
-    changes = 0
-    for index, proto in enumerate(spec["protos"]):
-        loc = proto["loc"]
-        if len(loc["parts"]) < 2:
-            continue
-        entry = (SINGLE, (index,), _parts(loc))
-        parents = [(kind, members, parts) for kind, members, parts in got if kind != SINGLE and index in members]
-        same = any((parts[0][0], parts[-1][1]) == _coords(loc) for _, _, parts in parents)
-        whole = any(parts == ((0, length),) for _, _, parts in parents)
-        if entry in result and same:
-            result.remove(entry)
-            changes += 1
-        elif entry not in result and whole and not same and entry in model.result:
-            result.append(entry)
-            changes += 1
-    return result, changes
-
-
 def _check_core_location(spec: dict, cand, index_of: dict) -> None:
     """ CandidateCluster.core_location is the span of the member cores """
     core = ring.from_bio(cand.core_location)
@@ -518,21 +492,13 @@ def check_form(spec: dict) -> dict:
         # among those whose input class is present, after which nothing is left to complain about
         explained = None
         possible = [fix for fix in ALL_FIXES if fix in model.input_classes]
-        for size in range(0, len(possible) + 1):
+        for size in range(1, len(possible) + 1):
             for fixes in itertools.combinations(possible, size):
-                if fixes:
-                    with repaired(fixes):
-                        results = run_all()
-                else:
-                    results = outcomes
-                if fixes and not judge_all(results):
+                with repaired(fixes):
+                    results = run_all()
+                if not judge_all(results):
                     explained = list(fixes)
                     break
-                if FIX_LOOKUP in model.input_classes:
-                    mended = [_repair_lookup(spec, got, model) for got in results]
-                    if any(changes for _, changes in mended) and not judge_all([got for got, _ in mended]):
-                        explained = list(fixes) + [FIX_LOOKUP]
-                        break
             if explained is not None:
                 break
         detail = dict(failures[0][1])
@@ -603,7 +569,6 @@ SUBCHECKS = {"form": check_form, "form_enum": check_form}
 # those whose input class is present, after which the case passes completely.
 ALWAYS = {"model_grouping", "model_kind_label"}
 BREAKS = {
-    FIX_LOOKUP: {"P8_single_missing", "P8_single_duplicates_parent"},
     FIX_ATTACHED: {"P7_neighbouring_group_split", "P13_neighbouring_not_closed"},
     FIX_SCAN: {"P6_interleaved_group_split", "P7_neighbouring_group_split", "P12_interleaved_not_closed",
                "P13_neighbouring_not_closed", "P9_single_of_absorbed"},
@@ -621,15 +586,11 @@ def _signature(fix: str):
         allowed = set(ALWAYS)
         for name in detail["explained_by"]:
             allowed |= BREAKS[name]
-        if any(len(proto["loc"]["parts"]) > 1 for proto in spec["protos"]):
-            # a repaired grouping has other coordinates, which can move an origin-spanning protocluster out of
-            # the lookup defect's reach: its clauses may show up without being part of the smallest explanation
-            allowed |= BREAKS[FIX_LOOKUP]
         return set(detail.get("all_failed") or [clause]) <= allowed
     return matches
 
 
-SIGNATURES: dict = {fix: _signature(fix) for fix in ALL_FIXES + (FIX_LOOKUP,)}
+SIGNATURES: dict = {fix: _signature(fix) for fix in ALL_FIXES}
 
 
 # --------------------------------------------------------------------------- generator
